@@ -116,6 +116,11 @@ class Action(BoboAction):
         self.log.append((self.name, event, ret))
         return ret
 
+    # a user's action may well be an object Python counts as false (a batching action whose len() is the number of events
+    # it holds, a container-like action): "has an action" means "is not None"
+    def __len__(self):
+        return 0
+
 
 def datagen_of(spec):
     if spec == '-':
